@@ -20,7 +20,7 @@
 (* defect repaired in the repository), "gt-d" the repaired one (saturate   *)
 (* only what lies beyond the grid).                                        *)
 (***************************************************************************)
-EXTENDS Integers, Sequences, FiniteSets, TLC
+EXTENDS Integers, Sequences, FiniteSets, TLC, Json
 
 CONSTANTS TS,      \* tile sizes, e.g. <<2, 1>>
           W, H, D, \* image size (W, H <= TS[1])
@@ -130,10 +130,23 @@ Next == /\ idx <= NV
         /\ idx' = idx + 1 /\ UNCHANGED policy
 Spec == Init /\ [][Next]_vars
 
+\* generator: every voxel set inside the W x H x D grid (nothing beyond its top), one oracle policy
+InGrid(v) == v[1] < W /\ v[2] < H /\ v[3] < D
+GenInit == neg = {} /\ policy = "exact" /\ idx = 1
+GenNext == /\ idx <= NV
+           /\ neg' \in (IF InGrid(VoxSeq[idx]) THEN {neg, neg \cup {VoxSeq[idx]}} ELSE {neg})
+           /\ idx' = idx + 1 /\ UNCHANGED policy
+GenSpec == GenInit /\ [][GenNext]_vars
+
 Result == Root([p \in Cols |-> 0], KMax - 1, TRUE)
 AssertsOk == idx <= NV \/ Result[2]
 Correct == idx <= NV \/ LET image == Merge(Result[1]) IN
            \A p \in Cols : (p[1] < W /\ p[2] < H /\ ~AboveGrid(p)) => image[p][1] = Height(p)
 NormalAtHit == idx <= NV \/ LET image == Merge(Result[1]) IN
            \A p \in Cols : (p[1] < W /\ p[2] < H /\ ~AboveGrid(p) /\ Height(p) > 0) => image[p][2] = Height(p) - 1
+\* one GEN line per voxel set: the set as a 0/1 list in VoxSeq order (x fastest, then y, then z; T0 x T0 x (ZTop+1)
+\* entries) and the heightmap the model computes for it (row-major over the W x H image)
+EmitVoxels == idx <= NV \/ PrintT(<<"GEN", ToJson([w |-> W, h |-> H, d |-> D, t0 |-> T0,
+                  bits |-> [i \in 1..NV |-> IF VoxSeq[i] \in neg THEN 1 ELSE 0],
+                  height |-> [q \in 1..(W * H) |-> Merge(Result[1])[<<(q - 1) % W, (q - 1) \div W>>][1]]])>>)
 =========================================================================
